@@ -416,19 +416,222 @@ def listbox_task(task, ctx: Ctx):
         top.keypress(size, "down")
 
 
+# ----------------------------------------------------------------------
+# ScrollBar over a ListBox: histories with keys, wheel, resizes and content changes made in place
+# ----------------------------------------------------------------------
+LB_SIZES = [(6, 3), (6, 5), (4, 2), (7, 8)]
+LB_KINDS = ["txt3", "mixed", "icons6", "icons9"]
+LB_BARS = [("right", 1), ("left", 2)]
+LB_KEYS = ["up", "down", "page up", "page down", "home", "end", "enter"]
+
+
+def lb_items(kind):
+    T = urwid.Text
+    if kind == "txt3":
+        return [T("a0"), T("b0"), T("c0")]
+    if kind == "mixed":
+        return [T("a0\na1"), urwid.Edit("", "e0", multiline=True), urwid.SelectableIcon("i0", 0), T("c0")]
+    if kind == "icons6":
+        return [urwid.SelectableIcon(f"r{i}", 0) for i in range(6)]
+    if kind == "icons9":
+        return [urwid.SelectableIcon(f"s{i}", 0) for i in range(9)]
+    raise AssertionError(kind)
+
+
+def item_text(w):
+    return w.edit_text if isinstance(w, urwid.Edit) else w.text
+
+
+def set_item_text(w, t):
+    if isinstance(w, urwid.Edit):
+        w.set_edit_text(t)
+    else:
+        w.set_text(t)
+
+
+class LbSt:
+    def __init__(self, cfg):
+        kind, bar, s0 = cfg
+        self.cfg = cfg
+        self.size_i = s0
+        self.items = lb_items(kind)
+        self.base = [item_text(w) for w in self.items]
+        self.walker = urwid.SimpleFocusListWalker(list(self.items))
+        self.lb = urwid.ListBox(self.walker)
+        self.bar = bar
+        self.top = urwid.ScrollBar(self.lb, thumb_char=THUMB, trough_char=TROUGH, side=bar[0], width=bar[1])
+        self.extra = 0
+
+    @property
+    def size(self):
+        return LB_SIZES[self.size_i]
+
+
+def lb_full(st: LbSt, cw):
+    """all item rows at width cw, in order (the focus item rendered with focus, as the ListBox does); -> rows, rows of the first item"""
+    rows = []
+    first = None
+    fw = st.walker.get_focus()[0]
+    for w in st.walker:
+        urwid.CanvasCache.clear()
+        rows += [(r + [" "] * cw)[:cw] for r in text_rows(w.render((cw,), w is fw))]
+        if first is None:
+            first = len(rows)
+    urwid.CanvasCache.clear()
+    return rows, first or 0
+
+
+def lb_total(st: LbSt, cw):
+    fw = st.walker.get_focus()[0]
+    return sum(w.rows((cw,), w is fw) for w in st.walker)
+
+
+class LbSpec:
+    def configs(self, tier):
+        return [(k, b, s) for k in LB_KINDS for b in LB_BARS for s in range(len(LB_SIZES)) if tier != "quick" or s in (0, 2)]
+
+    def build(self, cfg):
+        env.reset("utf-8")
+        st = LbSt(cfg)
+        try:
+            urwid.CanvasCache.clear()
+            st.top.render(st.size, True)
+        except Exception:
+            pass
+        return st
+
+    def key(self, cfg, st: LbSt):
+        lb = st.lb
+        scal = tuple(sorted((k, repr(v)) for k, v in vars(lb).items() if isinstance(v, (int, str, tuple, float, bool, type(None)))))
+        items = tuple((type(w).__name__, item_text(w), getattr(w, "edit_pos", None)) for w in st.walker)
+        return (scal, st.walker.focus, items, st.size_i, getattr(st.top, "_original_widget_size", None))
+
+    def ops(self, cfg, st: LbSt):
+        out = [("key", k) for k in LB_KEYS]
+        out += [("wheel", 4), ("wheel", 5)]
+        out += [("resize", i) for i in range(len(LB_SIZES)) if i != st.size_i]
+        n = len(st.walker)
+        for i in sorted({0, 1, n - 1} & set(range(n))):
+            out.append(("grow", i))
+            out.append(("shrink", i))
+        out.append(("append",))
+        if n > 1:
+            out.append(("pop",))
+        return out
+
+    def judge(self, cfg, st: LbSt, ctx: Ctx, case):
+        kind, bar, s0 = cfg
+
+        def V(clause, detail, feat="", site=""):
+            ctx.violation(clause, f"C20/{clause}/listbox/{kind}{('/' + feat) if feat else ''}{('/' + site) if site else ''}", case, detail)
+
+        cols, h = st.size
+        try:
+            urwid.CanvasCache.clear()
+            canv = st.top.render(st.size, True)
+            rows = text_rows(canv)
+        except Exception as e:
+            V("render-raises", f"ScrollBar(ListBox) render({st.size}, True) raised {type(e).__name__}: {e}", site=exc_site(e))
+            return
+        if canv.cols() != cols or canv.rows() != h or any(len(r) != cols for r in rows):
+            V("bar-geometry", f"canvas {canv.cols()}x{canv.rows()} for size {st.size}", "size")
+            return
+        side, bw = bar
+        cand = [r[cols - bw :] if side == "right" else r[:bw] for r in rows]
+        has_bar = all(all(ch in (THUMB, TROUGH) for ch in c) for c in cand) and any(THUMB in c for c in cand)
+        tot_full = lb_total(st, cols)
+        tot_red = lb_total(st, cols - bw)
+        if has_bar != (tot_full > h) and has_bar != (tot_red > h):
+            V("bar-iff-overflow", f"size {st.size}: bar drawn={has_bar} but the items have {tot_full} rows at the full width / {tot_red} at the reduced width, view {h}")
+        cw = cols - bw if has_bar else cols
+        view = [r[: cols - bw] if side == "right" else r[bw:] for r in rows] if has_bar else rows
+        full, first_rows = lb_full(st, cw)
+        total = len(full)
+        blank = [" "] * cw
+        match = [p for p in range(-h, total + 1) if [(full[p + i] if 0 <= p + i < total else blank) for i in range(h)] == view]
+        if not match:
+            V("inner-width", f"size {st.size}, bar={has_bar}: the view {[''.join(r) for r in view]} is no window of the items rendered at width {cw}: {[''.join(r) for r in full]}")
+            return
+        ctx.distinct("nontrivial", ("lb", kind, bar, st.size_i, tuple(item_text(w) for w in st.walker), match[0], has_bar))
+        if has_bar:
+            col = ["".join(c) for c in cand]
+            kinds = [c[0] for c in col]
+            if any(len(set(c)) != 1 for c in col):
+                V("bar-geometry", f"bar row mixes thumb and trough: {col}")
+            top_n = 0
+            while top_n < h and kinds[top_n] != THUMB:
+                top_n += 1
+            th = 0
+            while top_n + th < h and kinds[top_n + th] == THUMB:
+                th += 1
+            if THUMB in kinds[top_n + th :]:
+                V("bar-geometry", f"thumb is not one contiguous run: {kinds}")
+            if th < h:
+                # with many items the bar works in whole items ("relative scroll"): the thumb may stay at the top until the first item is gone
+                relative = h * 3 < len(st.walker)
+                if top_n == 0 and all(p >= (first_rows if relative else 1) for p in match):
+                    V("thumb-top-iff-p0", f"size {st.size}: the first row is scrolled out (window {match}) but the thumb is at the top: {''.join(kinds)}", "at-top")
+                if top_n > 0 and all(p <= 0 for p in match):
+                    V("thumb-top-iff-p0", f"size {st.size}: the first row is shown (window {match}) but the thumb starts at bar row {top_n}: {''.join(kinds)}", "left-top")
+
+    def check_state(self, cfg, st, ctx, hist):
+        if not hist:  # every later state is judged in apply(), right after the step that produced it
+            self.judge(cfg, st, ctx, {"lbcfg": cfg, "hist": hist})
+
+    def apply(self, cfg, st: LbSt, op, ctx: Ctx, hist):
+        case = {"lbcfg": cfg, "hist": hist + (op,)}
+        kind = cfg[0]
+        ctx.count("evaluations")
+        try:
+            if op[0] == "key":
+                st.top.keypress(st.size, op[1])
+            elif op[0] == "wheel":
+                st.top.mouse_event(st.size, "mouse press", op[1], 0, 0, True)
+            elif op[0] == "resize":
+                st.size_i = op[1]
+            elif op[0] in ("grow", "shrink"):
+                w = st.walker[op[1]]
+                t = item_text(w)
+                tag = t[:1] or "z"
+                if op[0] == "grow":
+                    n = t.count("\n") + 1
+                    if n >= 7:
+                        return False
+                    set_item_text(w, t + "".join(f"\n{tag}{n + j}" for j in range(3)))
+                else:
+                    if "\n" not in t:
+                        return False
+                    set_item_text(w, t.split("\n")[0])
+            elif op[0] == "append":
+                if len(st.walker) >= 11:
+                    return False
+                st.extra += 1
+                st.walker.append(urwid.SelectableIcon(f"x{st.extra}", 0))
+            elif op[0] == "pop":
+                st.walker.pop()
+        except Exception as e:
+            ctx.violation("event-raises", f"C20/event-raises/listbox/{kind}/{exc_site(e)}", case, f"{op!r} raised {type(e).__name__}: {e}")
+            return False
+        ctx.obs("lb", op)
+        # the main loop renders after every input
+        self.judge(cfg, st, ctx, case)
+        return True
+
+
 def run(tier, R):
     depth = 2 if tier == "quick" else 3
     spec = Spec(tier)
     res = R.bfs(spec, depth=depth, max_states=3_000_000)
+    lres = R.bfs(LbSpec(), depth=3 if tier == "quick" else 4, max_states=3_000_000)
     sweeps = [(k, b, s) for k in CONTENTS for b in BARS if b for s in range(len(SIZES))]
     R.run_tasks(sweep_task, sweeps, recheck=0.1)
     lbt = [(n, size, bar) for n in (1, 3, 6, 9) for size in SIZES for bar in BARS if bar]
     R.run_tasks(listbox_task, lbt, recheck=0.1)
     ev = int(R.ctx.counts["evaluations"])
     cov = {
-        "states": res["states"],
-        "transitions": res["transitions"],
-        "traces_validated_against_impl": res["transitions"],
+        "states": res["states"] + lres["states"],
+        "transitions": res["transitions"] + lres["transitions"],
+        "traces_validated_against_impl": res["transitions"] + lres["transitions"],
         "evaluations": ev,
         "distinct_nontrivial": len(R.ctx.sets.get("nontrivial", ())),
         "rule": f"BFS depth {depth} from {res['configs']} configurations ({len(CONTENTS)} contents: Text of 1/3/7 lines, wrapping Text, Pile with Edit, Pile of icons, fixed BigText; "
@@ -436,8 +639,12 @@ def run(tier, R):
         f"{POSITIONS}, resize to every other size, content change (longer/shorter); dedup on the complete Scrollable state; every state rendered and compared with the wrapped "
         f"widget's own rendering; plus a complete set_scrollpos sweep for {len(sweeps)} (content, bar, size) triples and {len(lbt)} ScrollBar(ListBox) walks. "
         "non-trivial = distinct (content, bar, size, variant, position shown)",
-        "exhaustive": not res["capped"],
+        "exhaustive": not res["capped"] and not lres["capped"],
         "bfs_levels": res["levels"],
+        "listbox_bfs": {"depth": lres["depth"], "states": lres["states"], "transitions": lres["transitions"], "levels": lres["levels"], "configs": lres["configs"],
+                        "rule": f"ScrollBar(ListBox) over {LB_KINDS} x bars {LB_BARS} x sizes {LB_SIZES}: keys {LB_KEYS}, wheel, resize, an item growing / shrinking in place "
+                        "(set_text / set_edit_text), append and pop on the walker; after every step: bar drawn iff the items overflow, bar geometry, the view is a window of the items "
+                        "rendered at the view width minus the bar width, the thumb leaves the top iff the first row is scrolled out"},
         "bound": {"depth": res["depth"], "capped": res["capped"]},
     }
     return {
@@ -446,6 +653,8 @@ def run(tier, R):
             "content rows are unique, so the rows shown identify p; the bar uses distinctive thumb/trough characters so it can be read off the canvas",
             "'bar drawn iff overflow' is reported only when it disagrees both at the full width and at the width reduced by the bar",
             "'thumb leaves the top iff p > 0' is not demanded when the thumb fills the whole bar (1-row views)",
+            "ScrollBar over a ListBox with more than 3 x height items works in whole items (relative scroll): there the thumb must have left the top once the whole first item is scrolled out, "
+            "and must be at the top while the first row is shown; in between either is accepted",
             "a handled key may move the view only to keep the cursor visible",
             "a view no wider than the bar has no room for a bar: 'drawn exactly when the content overflows' is not demanded there",
         ],
@@ -458,6 +667,18 @@ def replay(case, ctx):
 
     if "listbox" in case:
         listbox_task((case["listbox"], tuple(case["size"]), tup(case["bar"])), ctx)
+        return
+    if "lbcfg" in case:
+        spec = LbSpec()
+        cfg = tup(case["lbcfg"])
+        st = spec.build(cfg)
+        hist = tuple(tup(op) for op in case["hist"])
+        for i, op in enumerate(hist):
+            ctx.muted = i < len(hist) - 1
+            print(f"  step {i}: {op}   size={st.size}")
+            spec.apply(cfg, st, op, ctx, hist[:i])
+        ctx.muted = False
+        spec.check_state(cfg, st, ctx, hist)
         return
     cfg = tup(case["cfg"])
     cfg = (cfg[0], cfg[1] if cfg[1] else None, cfg[2])
